@@ -74,12 +74,41 @@ MC_NAMES = mc_simple("MC_Names", 'StringerTable = "full10" Window = 70000', ["No
 # --------------------------------------------------------------------------
 # recording
 
-def gen_recorder(prop):
+_bin32 = {}
+
+
+def harness32():
+    if "b" not in _bin32:
+        _bin32["b"] = vlib.build_harness(goarch="386")
+    return _bin32["b"]
+
+
+def arch32_lines(prop, tier, seed):
+    """the same generator in a 32-bit build of library and harness (GOARCH=386: int, uint and uintptr are 32 bits wide);
+    units (Cut to Cut) are self-contained, the quick tier validates every third of them"""
+    d = vlib.scratch("verif-tr-")
+    out = os.path.join(d, "trace32.ndjson")
+    vlib.run_harness(harness32(), ["gen", "-prop", prop, "-tier", tier, "-seed", str(seed + 32), "-out", out])
+    lines = vlib.read_trace(out)
+    if tier != "quick":
+        return lines
+    keep, unit, k = [], -1, seed % 3
+    for ln in lines:
+        if '"op":"Reset"' in ln or '"op":"Cut"' in ln:
+            unit += 1
+        if unit % 3 == k or '"op":"Reset"' in ln:
+            keep.append(ln)
+    return keep
+
+
+def gen_recorder(prop, arch32=True):
     def rec(binary, tier, seed):
         d = vlib.scratch("verif-tr-")
         out = os.path.join(d, "trace.ndjson")
         vlib.run_harness(binary, ["gen", "-prop", prop, "-tier", tier, "-seed", str(seed), "-out", out])
         lines = vlib.read_trace(out)
+        if arch32:
+            lines += arch32_lines(prop, tier, seed)
         return lines, sum(1 for x in lines if '"op":"Reset"' in x), {}
     return rec
 
@@ -429,6 +458,16 @@ def record_c06(binary, tier, seed):
             steps.append({"op": "new", "n": w, "lang": (a + seed) % 10, "script": [{"k": a, "err": ""}, {"k": need - a, "err": ""}], "after": "data", "fill": 9})
         steps.append({"op": "new", "n": w, "lang": seed % 10, "script": [{"k": 1, "err": ""}] * need, "after": "data", "fill": 9})
         steps.append({"op": "cut"})
+    # the same stream delivered to consecutive calls (a source restarted from its seed): each call is still a function of
+    # the bytes it was handed, whatever the previous call was handed
+    for w in (12, 15, 18, 21, 24):
+        need = w + w // 3
+        for rep in range(3):
+            steps.append({"op": "new", "n": w, "lang": (seed + rep // 2) % 10, "script": [{"k": need, "err": ""}], "after": "data", "fill": 100 + w})
+            nrun += 1
+        steps.append({"op": "new", "n": w, "lang": seed % 10, "script": [{"k": 4, "err": ""}, {"k": need - 4, "err": ""}], "after": "data", "fill": 100 + w})
+        nrun += 1
+    steps.append({"op": "cut"})
     # the same protocol through sources of other dynamic types: an io.ByteReader, a *bufio.Reader (fresh per call,
     # so that read-ahead does not carry over); a library that type-switches on its source must not change behaviour
     allruns = [st for st in steps if st.get("op") == "new"]
@@ -666,7 +705,7 @@ def step_from_label(lab, slotmap, rng):
         return {"op": "str", "n": slotmap[args[0]]}
     if name == "New":
         n = COUNTS[args[0]]
-        return {"op": "new", "n": n, "lang": slotmap[args[1]], "script": script_for(args[2], n), "after": "EOF" if args[2] != "whole" else "data", "fill": rng.randrange(2)}
+        return {"op": "new", "n": n, "lang": slotmap[args[1]], "script": script_for(args[2], n), "after": "EOF" if args[2] != "whole" else "data", "fill": rng.choice([0, 1, 100, 100, 101])}
     if name == "Swap":
         return {"op": "swap", "kind": args[0]}
     raise Infra("unknown label " + lab)
@@ -871,14 +910,26 @@ def run_conc(binary, goroutines, replicas, seed, d, procs=None):
     for f in sorted(os.listdir(d)):
         if f.startswith("race"):
             text += open(os.path.join(d, f), errors="replace").read()
-    n = text.count("WARNING: DATA RACE")
-    if r.returncode == 66 and n == 0:
+    if r.returncode == 66 and text.count("WARNING: DATA RACE") == 0:
         raise Infra("race build exited 66 without a report")
     lines = vlib.read_trace(out)
     if crash is not None:
         lines.append(json.dumps({"op": "Crash", "conc": True, "panicked": True, "timeout": False, "panic": [ord(c) for c in crash if ord(c) < 0x110000]}) + "\n")
-    lines.append(json.dumps({"op": "RaceReport", "n": n, "text": [ord(c) for c in text[:1500]]}) + "\n")
+    ev, n = race_event(text)
+    lines.append(ev)
     return lines, n + (1 if crash else 0)
+
+
+def race_event(text):
+    """the race detector's reports as one RaceReport event.  Only reports with a frame of the library count; a report
+    made of harness frames alone is a defect of the harness (no verdict)."""
+    reports = [x for x in text.split("==================") if "WARNING: DATA RACE" in x]
+    lib = [x for x in reports if "github.com/islishude/bip39" in x]
+    if len(lib) < len(reports):
+        own = next(x for x in reports if x not in lib)
+        raise Infra("data race inside the harness itself:\n" + own[:1500])
+    t = "==================".join(lib)
+    return json.dumps({"op": "RaceReport", "n": len(lib), "text": [ord(c) for c in t[:1500]]}) + "\n", len(lib)
 
 
 def record_c12(binary, tier, seed):
@@ -920,8 +971,9 @@ def record_c12(binary, tier, seed):
         raise Infra("overlap harness failed rc=%d: %s" % (r.returncode, r.stderr[-1500:]))
     text = "".join(open(os.path.join(od, f), errors="replace").read() for f in sorted(os.listdir(od)) if f.startswith("race"))
     lines += vlib.read_trace(out2)
-    lines.append(json.dumps({"op": "RaceReport", "n": text.count("WARNING: DATA RACE"), "text": [ord(c) for c in text[:1500]]}) + "\n")
-    nraces += text.count("WARNING: DATA RACE")
+    ev, n = race_event(text)
+    lines.append(ev)
+    nraces += n
     return lines, len(plan), {"fresh_race_build_processes": len(plan), "race_reports": nraces,
                               "programs_available": {"firstuse": len(fu), "allops": len(ao)}}
 
@@ -940,7 +992,7 @@ def replay_c12(path, binary):
             raise Infra("replayconc failed rc=%d: %s" % (r.returncode, r.stderr[-1500:]))
         text = "".join(open(os.path.join(d, f), errors="replace").read() for f in sorted(os.listdir(d)) if f.startswith("race"))
         lines = vlib.read_trace(out)
-        lines.append(json.dumps({"op": "RaceReport", "n": text.count("WARNING: DATA RACE"), "text": [ord(c) for c in text[:1500]]}) + "\n")
+        lines.append(race_event(text)[0])
         v = vlib.validate(lines, ["C12"], shards=1)
         mine = [b for b in v.bad if b[1] == "C12"]
         if mine:
@@ -957,7 +1009,7 @@ RECIPES["C12"] = dict(mc=[mc_once, apalache_once, mc_drive_conc], record=record_
 
 # --------------------------------------------------------------------------
 # C17: the update-wordlist tool, run against a local server
-import threading, http.server, unicodedata
+import threading, http.server, unicodedata, socket
 _gen_structs = []
 FILES = ["chinese_simplified", "chinese_traditional", "english", "french", "italian", "japanese", "korean", "spanish", "czech", "portuguese"]
 
@@ -1033,6 +1085,7 @@ def random_list(rng, pools, nlines):
 
 class _Srv(http.server.BaseHTTPRequestHandler):
     files = {}
+    faults = {}
     protocol_version = "HTTP/1.1"
     served = 0
 
@@ -1046,6 +1099,20 @@ class _Srv(http.server.BaseHTTPRequestHandler):
         b = _Srv.files[name]
         _Srv.served += 1
         self.send_response(200)
+        if _Srv.faults.get(name, 0) > 0:
+            # a transfer that breaks off: the declared length is never reached, the connection is dropped mid-body
+            _Srv.faults[name] -= 1
+            cut = (len(b) * (1 + _Srv.served % 5)) // 7
+            self.send_header("Content-Length", str(len(b)))
+            self.end_headers()
+            self.wfile.write(b[:cut])
+            self.wfile.flush()
+            try:
+                self.connection.shutdown(socket.SHUT_RDWR)
+            except OSError:
+                pass
+            self.close_connection = True
+            return
         if _Srv.served % 2:
             # every other file arrives in chunked transfer encoding, in pieces of uneven size with a flush after
             # each: a client has to keep reading until the body ends
@@ -1076,8 +1143,9 @@ def build_tool():
     return out
 
 
-def run_tool(tool, binary, port, inputs, golden, label, d):
-    """inputs: file -> bytes.  Returns Gen event lines."""
+def run_tool(tool, binary, port, inputs, golden, label, d, faults=None):
+    """inputs: file -> bytes.  Returns Gen event lines.  faults: file -> number of requests for it that break off
+    mid-body; the tool is then run again (as a maintainer would) until it reports success."""
     ind, outd = os.path.join(d, "in"), os.path.join(d, "out")
     vlib.shutil.rmtree(ind, ignore_errors=True)
     os.makedirs(ind)
@@ -1087,7 +1155,14 @@ def run_tool(tool, binary, port, inputs, golden, label, d):
     for f, b in inputs.items():
         open(os.path.join(ind, f + ".txt"), "wb").write(b)
     _Srv.files = {f + ".txt": b for f, b in inputs.items()}
-    r = subprocess.run(["timeout", "120", tool], cwd=outd, env=dict(os.environ, VERIF_WORDLIST_URL="http://127.0.0.1:%d" % port), capture_output=True, text=True)
+    _Srv.faults = {f + ".txt": n for f, n in (faults or {}).items()}
+    for attempt in range(2 + sum((faults or {}).values())):
+        r = subprocess.run(["timeout", "120", tool], cwd=outd, env=dict(os.environ, VERIF_WORDLIST_URL="http://127.0.0.1:%d" % port), capture_output=True, text=True)
+        if r.returncode == 0 or not faults:
+            break
+    if faults and r.returncode != 0:
+        raise Infra("the tool still fails after every broken transfer was used up: %s" % r.stderr[-300:])
+    _Srv.faults = {}
     args, tr = os.path.join(d, "args.json"), os.path.join(d, "gen.ndjson")
     json.dump({"indir": ind, "outdir": outd, "golden": golden, "label": label + (" tool_exit=%d" % r.returncode)}, open(args, "w"))
     vlib.run_harness(binary, ["genparse", "-arg", args, "-out", tr], env_extra={"VERIF_REPO": vlib.REPO})
@@ -1121,6 +1196,13 @@ def record_c17(binary, tier, seed):
             inputs = {f: ("alpha\n" + w[:n] + "\nomega\n" + (rng.choice(pools["hangul"]) * (n // 3))[:n // 3] + "\nlast").encode() for f in FILES}
             lines += run_tool(tool, binary, port, inputs, False, "longword", d)
             runs += 1
+        # transfers that break off mid-body (the connection is dropped): whatever the tool does about it (give up, or
+        # ask again), a run that reports success has written exactly the lists
+        for k in range(3 if tier == "quick" else 30):
+            inputs = {f: random_list(rng, pools, rng.choice([3, 50, 2048])).encode() for f in FILES}
+            fl = {f: rng.choice([1, 1, 2]) for f in rng.sample(FILES, rng.choice([1, 2, 4]))}
+            lines += run_tool(tool, binary, port, inputs, False, "broken-transfer", d, faults=fl)
+            runs += 1
         nbig = 7 if tier == "quick" else 100
         for k in range(nbig):
             inputs = {f: random_list(rng, pools, rng.choice([0, 1, 2, 10, 100, 2048, 5000])).encode() for f in FILES}
@@ -1146,6 +1228,7 @@ def replay_c17(path, binary):
         longer = text + b"\n" + b"\n".join(b"zzzzzzzzzzzzzzzzzzzzzzzz" for _ in range(40)) + b"\n"
         run_tool(tool, binary, srv.server_address[1], {f: longer for f in FILES}, False, "replay-previous-run", d)
         lines = run_tool(tool, binary, srv.server_address[1], {f: text for f in FILES}, False, "replay", d)
+        lines += run_tool(tool, binary, srv.server_address[1], {f: text for f in FILES}, False, "replay-broken-transfer", d, faults={f: 1 for f in FILES[::3]})
     finally:
         srv.shutdown()
     v = vlib.validate(lines, ["C17"], shards=1)
